@@ -5,14 +5,10 @@ import S3V.Thm.FsStoreGet
 namespace S3V.FsStore
 open S3V.StoreSpec
 
-/-- an answer without the member `head_object` never fills: its ETag (finding fs:head-without-etag) -/
-def Resp.core : Resp → Resp
-  | .head l _ m => .head l none m
-  | r => r
-
 /-- `head_object` comparable: names agree; for admissible names, when the bucket exists the path is not a leftover
     directory [else fs:leftover-directory]. A missing key in an existing bucket is inside since d6f1a3c (`NoSuchKey`
-    on both sides; before: fs:head-missing-key-code) -/
+    on both sides; before: fs:head-missing-key-code); since 3751248 the answers agree in every member, the ETag included
+    (before: fs:head-without-etag) -/
 def HeadOk (s : State) (b k : Bytes) : Prop :=
   NameOk b ∧ CanonKey k ∧ sideTooLong b k false = false ∧
   (bucketOk b = true →
@@ -24,7 +20,7 @@ def HeadOk (s : State) (b k : Bytes) : Prop :=
       | some t => ReadableNode (t.node p))
 
 theorem head_refines (H : Hashes) (dl : Nat) {s : State} (hi : Inv s) {b k : Bytes} (hg : HeadOk s b k) :
-    (step H dl s (.headObject b k)).2.core = (StoreSpec.step H (abs s) (.headObject b k)).2.core ∧
+    (step H dl s (.headObject b k)).2 = (StoreSpec.step H (abs s) (.headObject b k)).2 ∧
     abs (step H dl s (.headObject b k)).1 = (StoreSpec.step H (abs s) (.headObject b k)).1 ∧
     Inv (step H dl s (.headObject b k)).1 := by
   obtain ⟨hname, ⟨hslash, hcanon⟩, hshort, hbucket⟩ := hg
@@ -65,7 +61,7 @@ theorem head_refines (H : Hashes) (dl : Nat) {s : State} (hi : Inv s) {b k : Byt
             rw [hn] at hlook
             simp only [Option.bind_some, nodeObj] at hlook
             have hload := loadMeta_eq hi hshort (b := b) (k := k)
-            simp [step, StoreSpec.step, objPath, hbd, hkp, hbo, hko, habs, hnode, hn, hlook, hi, hload, Resp.core]
+            simp [step, StoreSpec.step, objPath, hbd, hkp, hbo, hko, habs, hnode, hn, hlook, hi, hload]
   · simp [step, StoreSpec.step, objPath, hbd, hbo, hi]
 
 /-- how the abstraction sees a file removed at `p` (key `k`) of bucket `b` -/
